@@ -266,14 +266,19 @@ func TestC03(t *testing.T) {
 		&gen.Node{K: gen.NField, Field: n1, V: gen.Float("0.001")}, &gen.Node{K: gen.NRange, Field: n1, Lo: gen.Float("0.001"), Hi: gen.Float("0.002"), IncLo: true, IncHi: true},
 		&gen.Node{K: gen.NRange, Field: n1, Lo: gen.Float("1.125"), Hi: nil, IncLo: false, IncHi: false})
 	depth := 1
-	if cfg.Thorough() {
-		depth = 2
-	}
 	st.Stream("enum-fragment", true, fmt.Sprintf("all trees of operator depth <= %d over %d fragment leaves (one per form x bound kind x inclusivity x value kind), operators AND OR NOT + -", depth, len(leaves)))
 	gen.EnumTrees(leaves, depth, gen.EnumOps{}, cfg.Shard, cfg.NShards, func(n *gen.Node) {
 		// enumerated trees share sub-nodes: copy before sanitising
 		run("enum-fragment", FragCase{Tree: gen.Clone(n), Fields: fields})
 	})
+	if cfg.Thorough() {
+		// depth 2 over a 12-leaf selection (one per leaf form and field type)
+		sel := []*gen.Node{leaves[0], leaves[5], leaves[6], leaves[10], leaves[14], leaves[16], leaves[17], leaves[22], leaves[23], leaves[27], leaves[33], leaves[len(leaves)-5]}
+		st.Stream("enum-fragment-depth2", true, fmt.Sprintf("all trees of operator depth <= 2 over %d selected fragment leaves, operators AND OR NOT + -", len(sel)))
+		gen.EnumTrees(sel, 2, gen.EnumOps{}, cfg.Shard, cfg.NShards, func(n *gen.Node) {
+			run("enum-fragment-depth2", FragCase{Tree: gen.Clone(n), Fields: fields})
+		})
+	}
 
 	st.Rapid(t, "random-fragment", cfg.N(8000, 600000), func(rt *rapid.T) {
 		fs := genFields(rt)
